@@ -68,9 +68,18 @@ def gen_history_case(rng, thorough):
     for b in beams:
         if b["type"] == "particle":
             b["charges"] = [1e-12 for _ in b["charges"]]
+    if rng.random() < 0.5:
+        # related beams: same particles at another reference energy (an energy scan) or with other charges -- a result that depends
+        # on anything but the current parameter values and THIS beam (a cache keyed on part of the input) shows up only then
+        b2 = copy.deepcopy(beams[0])
+        if rng.random() < 0.6:
+            b2["energy"] = 1e8 if beams[0]["energy"] != 1e8 else 2e7
+        else:
+            b2["charges"] = [3e-12 for _ in b2["charges"]]
+        beams[1] = b2
     positions = [(p, s["name"], k) for p, s in leaves(lat) for k in s["kw"] if k in ASSIGNABLE]
     diags = [(p, s["name"]) for p, s in leaves(lat) if s["cls"] in ("Screen", "BPM")]
-    nondiag = [list(p) for p, s in leaves(lat) if s["cls"] not in ("Screen", "BPM")]
+    nondiag = [list(p) for p, s in leaves(lat)]      # diagnostics included: a direct track records the beam (read-out then unspecified)
     stored = [list(p) for p, s in leaves(lat) if s["cls"] == "CustomTransferMap"]
     n_ops = rng.randrange(4, 41 if thorough else 13)
     ops = []
@@ -96,6 +105,51 @@ def gen_history_case(rng, thorough):
     if not any(o[0] == "track" for o in ops):
         ops.append(["track", 0])
     return {"lattice": lat, "beams": beams, "ops": ops}
+
+
+def gen_targeted_cases(rng):
+    """Hidden-state probes, one per element class and run: the element alone, first in the lattice (so that the caller's own
+    beam reaches it) and in the middle; tracked with beams that share their particles but differ in the reference energy or
+    in the charges, interleaved (b0, b1, b0, b2, b0); diagnostics active, blocking or not, misaligned, read after every track."""
+    out = []
+    for cls in CLASSES:
+        spec = realgen.gen_element(rng, cls=cls, name="x")
+        if cls in ("Screen", "BPM"):
+            spec["kw"]["is_active"] = True
+        if cls == "Screen":
+            spec["kw"]["is_blocking"] = rng.random() < 0.5
+            spec["kw"]["misalignment"] = [rng.choice([1e-3, -2e-3]), rng.choice([5e-4, -1e-3])]
+        if cls == "Aperture":
+            spec["kw"]["is_active"] = True
+        d1 = realgen.gen_element(rng, cls="Drift", name="d1", method="cheetah")
+        d2 = realgen.gen_element(rng, cls="Drift", name="d2", method="cheetah")
+        es = rng.choice([[spec], [spec, d2], [d1, spec, d2]])
+        lat = {"cls": "Segment", "name": "t", "es": copy.deepcopy(es)}
+        particle_only = spec["kw"].get("tracking_method") == "bmadx" or cls in ("TransverseDeflectingCavity", "SpaceChargeKick")
+        b0 = realgen.gen_particle_beam(rng, n=rng.choice([4, 6]), energy=rng.choice([2e7, 1e8]))
+        b0["charges"] = [1e-12 for _ in b0["charges"]]
+        b0["survival"] = [1.0 for _ in b0["survival"]]
+        b1 = copy.deepcopy(b0)
+        b1["energy"] = 1e8 if b0["energy"] != 1e8 else 2e7
+        b2 = copy.deepcopy(b0)
+        b2["charges"] = [3e-12 for _ in b2["charges"]]
+        beams = [b0, b1, b2]
+        if not particle_only:
+            q0 = realgen.gen_parameter_beam(rng, energy=b0["energy"])
+            q1 = copy.deepcopy(q0)
+            q1["energy"] = b1["energy"]
+            beams += [q0, q1]
+        seq = [0, 1, 0, 2, 0] + ([3, 4, 3, 0] if not particle_only else [])
+        ops = []
+        has_diag = cls in ("Screen", "BPM")
+        for bi in seq:
+            ops.append(["track", bi])
+            if has_diag:
+                ops.append(["read", 0])
+        ops.append(["etrack", [es.index(spec)], 0])
+        ops.append(["track", 1])
+        out.append({"lattice": lat, "beams": beams, "ops": ops, "targeted": cls})
+    return out
 
 
 # ---------------------------------------------------------------- execution on the implementation
@@ -322,6 +376,9 @@ def execute(case):
         elif o[0] == "etrack":
             el = get_live(seg, tuple(o[1]))
             b = beams[o[2]]
+            for d, (p, _) in enumerate(diags):
+                if tuple(p) == tuple(o[1]):
+                    tainted[d] = True      # the diagnostic saw a beam outside a track of the lattice: its read-out is not constrained until the next track
             before_b = {n: tensor_bytes(t) for n, t in b.named_buffers()}
             before_s = snapshot_module(seg)
             try:
@@ -430,7 +487,10 @@ def main(tier, replay=None):
                        "track with either beam type, read screen/BPM, clone+track, apply one of the four lattice optimisations) of length "
                        f"<= {40 if thorough else 12} on random lattices of real elements (16 classes, one nesting level). Each history is executed on live objects; "
                        "the Coq model predicts which results must be identical (vm_compute); byte snapshots detect in-place writes; every track "
-                       "and read-out is compared bit-for-bit with a freshly built lattice. Non-trivial = at least one assignment before a later track.")
+                       "and read-out is compared bit-for-bit with a freshly built lattice. Half of the histories use related beams (same particles at another "
+                       "reference energy or with other charges); one targeted hidden-state probe per element class and run (element alone / first / in the "
+                       "middle; interleaved tracks of beams that differ only in energy or charge; active, blocking, misaligned diagnostics read after "
+                       "every track; direct track through the element). Non-trivial = at least one assignment before a later track.")
     if replay:
         case = json.loads(open(replay).read())["case"]
         problems = execute(case)[5]
@@ -439,8 +499,11 @@ def main(tier, replay=None):
     proof_ok = run.proof_stage()
     n = 600 if thorough else 150
     cases, terms, bad = [], [], []
-    for _ in range(n):
-        case = gen_history_case(run.rng, thorough)
+    targeted = [c for _ in range(3 if thorough else 1) for c in gen_targeted_cases(run.rng)]
+    for k in range(n + len(targeted)):
+        case = targeted[k] if k < len(targeted) else gen_history_case(run.rng, thorough)
+        if "targeted" in case:
+            run.count("targeted_" + case["targeted"])
         try:
             obs, init_vals, final_vals, val_ids, active, problems = execute(case)
         except Exception as ex:
